@@ -241,6 +241,52 @@ def nested_request(par: List[int], src: int, dst: int, nxt: int, hook: int) -> b
     return fin(_active_ok(sm, states) and spy.count("called", 0) == 1 and spy.count("called", 1) == (1 if fired else 0))
 
 
+def refused_nested_request(par: List[int], src: int, dst: int, hook: int, swallow: bool) -> bool:
+    """
+    pre: len(par) == 5
+    pre: all(-1 <= p < 5 for p in par)
+    pre: 0 <= src < 4 and 0 <= dst < 4 and 0 <= hook < 4 and par[4] == -1
+    pre: src != dst
+    post: _
+    """
+    # a handler on the enter event of `hook` requests a transition that is NOT allowed at that moment ("go" again, whose source
+    # is src while the machine is already at dst): that request raises and must change nothing - the outer transition stays
+    # performed, current and active flags stay consistent, later legal requests still work
+    states = _machine(par)
+    sm = StateMachine()
+    trans = [Transition("go", states[src], states[dst]), Transition("back", states[dst], states[src])]
+    sm._transitions = trans
+    _set_current(sm, states, states[src])
+    refused = []
+
+    def follow(_):
+        if not refused and sm.current_state is states[dst]:
+            refused.append(1)
+            if swallow:
+                try:
+                    sm._perform_transition("go")
+                except WrongSourceStateError:
+                    pass
+            else:
+                sm._perform_transition("go")             # the handler lets the refusal propagate
+
+    states[hook].events.enter.register(follow)
+    try:
+        sm._perform_transition("go")
+    except WrongSourceStateError:
+        if swallow or not refused:
+            return False
+        # the refusal of the nested request reached the caller; when it was raised from the destination's own enter handler the
+        # outer transition had already switched: the machine must still be in ONE consistent state (dst with parents entered
+        # is only guaranteed when the hook is the last state entered, i.e. a root destination - see finding nested-parent-entry)
+        if par[dst] >= 0 and par[dst] < dst:
+            return True
+    if sm.current_state is not states[dst] or not _active_ok(sm, states):
+        return False
+    sm._perform_transition("back")
+    return fin(sm.current_state is states[src] and _active_ok(sm, states))
+
+
 OBLIGATIONS = [
     dict(name="shipped_step", fn="shipped_step", timeout=600,
          parts=["which == 0", "which == 1", "which == 2 and cfg == 0", "which == 2 and cfg == 1", "which == 2 and cfg == 2",
@@ -272,4 +318,11 @@ OBLIGATIONS = [
          findings=[dict(id="C18-uneven-depth", pred="uneven(par, src, dst) or uneven(par, dst, nxt)"),
                    dict(id="C18-nested-parent-entry", pred="par[dst] >= 0 and par[dst] < dst")]),
 ]
+OBLIGATIONS.append(
+    dict(name="refused_nested_request", fn="refused_nested_request", timeout=900,
+         parts=["src == %d" % i for i in range(4)],
+         functions=["_perform_transition refused from inside an enter handler"],
+         bounds="all forests over 4 states; a disallowed request issued from the enter handler of any state during src->dst (refusal caught by the "
+                "handler or propagating to the caller), then the legal way back",
+         findings=[dict(id="C18-uneven-depth", pred="uneven(par, src, dst) or uneven(par, dst, src)")]))
 ASSUMPTIONS = ["pre-states are constructed (current + active flags of its ancestors); timers of the communication machine are virtual"]
